@@ -120,7 +120,7 @@ fn run_serve(case: &Value, trace: &mut Trace) {
     let cut = case["cut"].as_u64().unwrap_or(0) as usize;
     let bodied = case["bodied"].as_bool().unwrap_or(true);
     let log = Arc::new(Log { m: Mutex::new(Vec::new()), cv: Condvar::new() });
-    let cfg = Cfg { nq: 2, maxq: 256, masks: vec![1, 2], features: (1 << 30) | 1, pf: 0xffff, exit: true, fail_update_memory: false };
+    let cfg = Cfg { nq: 2, maxq: 256, masks: vec![1, 2], features: (1 << 30) | 1, pf: 0xffff, exit: true, exit_pipe: case["id"].as_u64().unwrap_or(0) % 2 == 1, fail_update_memory: false };
     let tb = Arc::new(TB::<VringRwLock<GM>>::new(cfg, log));
     let path = sock_path();
     let mut daemon = VhostUserDaemon::new("vh-daemon".to_string(), tb, GuestMemoryAtomic::new(GuestMemoryMmap::new())).unwrap();
@@ -172,7 +172,8 @@ fn run_serve(case: &Value, trace: &mut Trace) {
     // every worker's exit event must have been raised: the worker threads terminate although the daemon object is alive
     let t1 = Instant::now();
     let mut left = live_workers();
-    while left > 0 && t1.elapsed() < Duration::from_secs(10) {
+    // (workers count as left behind only once the watchdog has expired and they are seen asleep in a system call)
+    while left > 0 && (t1.elapsed() < Duration::from_secs(10) || (t1.elapsed() < Duration::from_secs(120) && !all_blocked(&tids_named("vring_worker"), &[]))) {
         std::thread::sleep(Duration::from_millis(2));
         left = live_workers();
     }
@@ -180,7 +181,9 @@ fn run_serve(case: &Value, trace: &mut Trace) {
     trace.emit(json!({"ev": "serve", "cut": cut, "len": msg.len(), "bodied": bodied, "res": res, "workers_started": workers_started, "workers_left": left,
         "exit": true, "before": 0, "after": 0}));
     if res != "hang" {
-        drop(th.join());
+        if let Ok(d) = th.join() {
+            guarded_drop(d);
+        }
     }
     let _ = std::fs::remove_file(&path);
 }
@@ -204,6 +207,7 @@ pub fn run_case(case: &Value, trace: &mut Trace) {
         features: (1 << 30) | 1,
         pf: 0xffff,
         exit: true,
+        exit_pipe: case["id"].as_u64().unwrap_or(0) % 2 == 1,
         fail_update_memory: false,
     };
     let tb = Arc::new(TB::<VringRwLock<GM>>::new(cfg, log.clone()));
@@ -484,12 +488,16 @@ pub fn run_case(case: &Value, trace: &mut Trace) {
             let w2 = std::thread::spawn(move || {
                 let r = daemon.wait();
                 let _ = tx2.send(if r.is_ok() { "Ok".to_string() } else { "Err".to_string() });
-                drop(daemon);
+                daemon
             });
             second_wait = rx2.recv_timeout(Duration::from_secs(10)).unwrap_or_else(|_| "hang".to_string());
             if second_wait != "hang" {
-                let _ = w2.join();
+                if let Ok(d) = w2.join() {
+                    guarded_drop(d);
+                }
             }
+        } else {
+            guarded_drop(daemon);
         }
         let _ = std::fs::remove_file(&path2);
     }
